@@ -272,7 +272,10 @@ def _generate_mask(vertices, x, y):
 
     xxyy = truenp.stack((xx, yy), axis=2)
     # use delaunay to fill from the vertices and produce a mask
-    triangles = spatial.Delaunay(vertices, qhull_options='QJ Qf')
+    # a joggled (QJ) triangulation needs at least four points; a triangle is
+    # its own triangulation and is built with scipy's default options
+    options = 'QJ Qf' if len(vertices) > 3 else None
+    triangles = spatial.Delaunay(vertices, qhull_options=options)
     mask = ~(triangles.find_simplex(xxyy) < 0)
     return mask
 
